@@ -5,3 +5,7 @@ From Coq Require Import ZArith QArith.
 Open Scope Z_scope.
 
 Definition qtrunc (q : Q) : Z := Z.quot (Qnum q) (Zpos (Qden q)).
+
+(** numpy's v.min() / v.max() over the first n entries of a vector (n >= 1) *)
+Fixpoint vmin (n : nat) (v : Z -> Z) : Z := match n with O => v 0 | S m => Z.min (vmin m v) (v (Z.of_nat m)) end.
+Fixpoint vmax (n : nat) (v : Z -> Z) : Z := match n with O => v 0 | S m => Z.max (vmax m v) (v (Z.of_nat m)) end.
